@@ -588,6 +588,10 @@ class State:
                     return
 
     def add_eq(self, a, b):
+        d = a - b
+        if len(d.t) > 1 and self.facts and not self.dead and (self.entails(d - 1, 2) or self.entails(-d - 1, 2)):
+            self.dead = True       # the state already knows a != b (needs the recorded facts, not only the intervals)
+            return
         self.add_fact(a - b)
         self.add_fact(b - a)
 
